@@ -11,6 +11,7 @@ import MsVerif.Driver.OpsBounds
 import MsVerif.Driver.OpsPlan
 import MsVerif.Driver.OpsValidate
 import MsVerif.Driver.OpsPsbt
+import MsVerif.Driver.OpsCompile
 
 namespace MsVerif.Driver
 
@@ -67,7 +68,10 @@ def step (st : DState) (line : String) : DState × String :=
                           | none =>
                             match opsPsbt kind op args with
                             | some r => (st, r)
-                            | none => (st, "bad-op")
+                            | none =>
+                              match opsCompile st.tables kind op args with
+                              | some r => (st, r)
+                              | none => (st, "bad-op")
   | _ => (st, "bad-op")
 
 end MsVerif.Driver
